@@ -271,19 +271,19 @@ m('c13-singular-mix-sqrt', 'C13', 'effect/reverb.rs',
   'A.singular|<effect::reverb::Reverb as effect::Effect>::process|sqrt', 'square root of a value that is negative for mix > 0.5')
 m('c13-singular-drive', 'C13', 'effect/distortion.rs',
   '\t\t\tif drive > 0.0 {\n\t\t\t\toutput /= drive;\n\t\t\t}', '\t\t\tif drive >= 0.0 {\n\t\t\t\toutput /= drive;\n\t\t\t}',
-  'A.singular|<effect::distortion::Distortion as effect::Effect>::process|div', 'the zero test of the drive lets exactly zero through', also=['C01'])
+  'A.singular|<effect::distortion::Distortion as effect::Effect>::process|div', 'the zero test of the drive lets exactly zero through')
 m('c15-singular-range', 'C15', 'track/sub/spatial_builder.rs',
   '\t\tif !(self.min_distance < self.max_distance) {', '\t\tif !(self.min_distance <= self.max_distance) {',
   'A.singular|track::sub::spatial_builder::SpatialTrackDistances::relative_distance|div', 'min == max reaches the division (0/0)')
 m('c17-map-empty-range', 'C17', 'value.rs',
   '\t\tlet mut amount = if input_span == 0.0 {', '\t\tlet mut amount = if input_span == 1.0 {',
-  'A.singular|value::Mapping::<T>::map|div', 'the empty-range test no longer protects the division', also=['C01'], reverse_of='mapping with an empty input range')
+  'A.singular|value::Mapping::<T>::map|div', 'the empty-range test no longer protects the division', reverse_of='mapping with an empty input range')
 m('c06-tween-value-unguarded', 'C01', 'parameter.rs',
   '\t\t\t\tif tween.duration.is_zero() {\n\t\t\t\t\treturn None;\n\t\t\t\t}\n', '',
   'A.singular|tween::Tween::value|div', 'a pending zero-duration tween evaluates 0/0 (only pinned by one clock test)')
 m('c13-compressor-floor', 'C13', 'effect/compressor.rs',
   '(input - threshold).max(0.0)', '(input - threshold)',
-  'A.singular|<effect::compressor::Compressor as effect::Effect>::process|log', 'the -inf level of a silent sample is no longer floored', also=['C01'])
+  'A.singular|<effect::compressor::Compressor as effect::Effect>::process|log', 'the -inf level of a silent sample is no longer floored')
 
 # ---------------------------------------------------------------- C15
 m('c15-range', 'C15', 'track/sub/spatial_builder.rs',
